@@ -44,11 +44,20 @@ THEOREMS = [
     "Scenic.C19.runtime_range_uniform",
     "Scenic.C19.runtime_options_weighted",
     "Scenic.C19.choices_interval",
+    "Scenic.C19.named_operand_is_literal",
+    "Scenic.C19.shuffleVar_consumes",
+    "Scenic.C19.shuffle_consumes_operand_witness",
+    "Scenic.C19.generator_unfolding",
+    "Scenic.C19.generator_refines_bigstep",
+    "Scenic.C19.runSteps_refines_bigstep",
+    "Scenic.C19.lockstep_independent",
+    "Scenic.C19.sequence_independent",
 ]
 SIDE = ["Scenic.C19.gen_config_wf"]
 
 FINGERPRINTS = {
     "_invokeSubBehavior": ("src/scenic/core/dynamics/invocables.py", "Invocable._invokeSubBehavior"),
+    "_runSubBehavior": ("src/scenic/core/dynamics/invocables.py", "Invocable._runSubBehavior"),
     "_isEnabledForAgent": ("src/scenic/core/dynamics/invocables.py", "Invocable._isEnabledForAgent"),
     "_checkAllPreconditions": ("src/scenic/core/dynamics/invocables.py", "Invocable._checkAllPreconditions"),
     "Behavior._invokeInner": ("src/scenic/core/dynamics/behaviors.py", "Behavior._invokeInner"),
@@ -209,6 +218,11 @@ class Runtime:
     def t0(self):
         return self.T["t0"]
 
+    @property
+    def dicts(self):
+        """ids of the items of the dicts the body holds in local variables"""
+        return self.T.get("dicts", [])
+
 
 RT = Runtime()
 
@@ -222,10 +236,12 @@ def wfloat(w):
 
 def shape_of(prog):
     """everything the Scenic *source text* depends on (tables are looked up at run time)"""
-    sh = [prog["ctx"]]
+    sh = [prog["ctx"], tuple(tuple(it["id"] for it in d) for d in prog.get("dicts", []))]
     for s in prog["stmts"]:
         k = s["k"]
-        if k == "wait":
+        if s.get("form") == "v":
+            sh.append((k, "v", s["var"]))
+        elif k == "wait":
             sh.append(("wait", s["n"]))
         elif k == "range":
             sh.append(("range", s["lo"][0], s["lo"][1] if s["lo"][0] == "p" else None,
@@ -242,11 +258,15 @@ def render(prog):
     ctx = prog["ctx"]
     now = "simulation().currentTime"
     step = {"behavior": "take {v}", "compose": "wait", "monitor": "wait"}[ctx]
-    body = ["for _i in range(_c19.t0):", "    wait"]
+    body = [f"_d{j} = {{" + ", ".join(f"Sub({it['id']}): _c19.w({it['id']})" for it in d) + "}"
+            for j, d in enumerate(prog.get("dicts", []))]
+    body += ["for _i in range(_c19.t0):", "    wait"]
     nd = 0  # number of draws so far
     for k, s in enumerate(prog["stmts"]):
         kind = s["k"]
-        if kind == "wait":
+        if s.get("form") == "v":
+            body.append(f"do {kind} _d{s['var']}")
+        elif kind == "wait":
             body += ["wait"] * s["n"]
         elif kind in ("range", "options", "uniform"):
             if kind == "range":
@@ -281,13 +301,16 @@ def render_generic(ctx):
     if ctx != "monitor":
         for word in ("choose", "shuffle"):
             sched += [f"elif _k == '{word}':",
-                      "    _ids = [_it['id'] for _it in _s['items']]",
-                      "    if _s['form'] == 'd':",
+                      "    _ids = [_it['id'] for _it in _s.get('items', ())]",
+                      "    if _s['form'] == 'v':",
+                      f"        do {word} _D[_s['var']]",
+                      "    elif _s['form'] == 'd':",
                       f"        do {word} {{Sub(_i): _c19.w(_i) for _i in _ids}}"]
             for n in (1, 2, 3, 4):
                 sched += [f"    elif len(_ids) == {n}:",
                           f"        do {word} " + ", ".join(f"Sub(_ids[{j}])" for j in range(n))]
-    body = ["for _i in range(_c19.t0):", "    wait",
+    body = (["_D = [{Sub(_i): _c19.w(_i) for _i in _ids} for _ids in _c19.dicts]"] if ctx == "behavior" else []) + [
+            "for _i in range(_c19.t0):", "    wait",
             "for _s in _c19.stmts:",
             "    _k = _s['k']",
             "    if _k == 'wait':",
@@ -335,9 +358,17 @@ def _wrap(ctx, body):
 
 
 def tables_of(prog):
-    T = {"pre": {}, "dur": {}, "w": {}, "p": {}, "t0": prog["t0"], "stmts": prog["stmts"]}
+    T = {"pre": {}, "dur": {}, "w": {}, "p": {}, "t0": prog["t0"], "stmts": prog["stmts"],
+         "dicts": [[it["id"] for it in d] for d in prog.get("dicts", [])]}
+    for d in prog.get("dicts", []):
+        for it in d:
+            T["pre"][it["id"]] = it["pre"]
+            T["dur"][it["id"]] = it["dur"]
+            T["w"][it["id"]] = wfloat(it["w"])
     for k, s in enumerate(prog["stmts"]):
         kind = s["k"]
+        if s.get("form") == "v":
+            continue
         if kind == "range":
             T["p"][k] = [s["lo"][1] if s["lo"][0] == "c" else None, s["hi"][1] if s["hi"][0] == "c" else None]
         elif kind == "options":
@@ -355,9 +386,17 @@ def tables_of(prog):
 def lean_line(prog):
     toks = ["C19", "prog", str(prog["t0"])]
     fr = lambda w: "{}/{}".format(*Fraction(w).as_integer_ratio())
+    item = lambda it, form: [str(it["id"]), fr(it["w"]) if form == "d" else "-",
+                             "".join("1" if b else "0" for b in it["pre"]), "".join(str(d) for d in it["dur"])]
+    for d in prog.get("dicts", []):
+        toks += ["D", str(len(d))]
+        for it in d:
+            toks += item(it, "d")
     for s in prog["stmts"]:
         kind = s["k"]
-        if kind == "wait":
+        if s.get("form") == "v":
+            toks += ["CV" if kind == "choose" else "SV", str(s["var"])]
+        elif kind == "wait":
             toks += ["W", str(s["n"])]
         elif kind == "range":
             toks += ["R"] + [f"{tag}{val}" for tag, val in (s["lo"], s["hi"])]
@@ -370,8 +409,7 @@ def lean_line(prog):
         else:
             toks += ["C" if kind == "choose" else "S", s["form"], str(len(s["items"]))]
             for it in s["items"]:
-                toks += [str(it["id"]), fr(it["w"]) if s["form"] == "d" else "-",
-                         "".join("1" if b else "0" for b in it["pre"]), "".join(str(d) for d in it["dur"])]
+                toks += item(it, s["form"])
     return " ".join(toks)
 
 
@@ -421,7 +459,8 @@ def real_pmf(prog):
             return canon("rej", None, [e for e in log if e[0] != 2])
         ends = [e for e in log if e[0] == 2]
         if len(ends) != 1 or log[-1][0] != 2:
-            return ("bad", None, tuple(log), str(sim.result.terminationType))
+            # the body did not reach its end within MAX_STEPS (every generated program ends well before that)
+            return canon("timeout", None, [e for e in log if e[0] != 2][:12])
         return canon("done", ends[0][2], log[:-1])
 
     en = RngEnum()
@@ -504,7 +543,9 @@ def spec_pmf(prog):
             for v, q in dist:
                 go(i + 1, t + 1, vals + [v], log + [(t, 1, v)], p * q)
             return
-        items = [dict(it, w=(it["w"] if s["form"] == "d" else "1")) for it in s["items"]]
+        # a variable operand lists the items of the dict it was bound to
+        listed = prog["dicts"][s["var"]] if s["form"] == "v" else s["items"]
+        items = [dict(it, w=(it["w"] if s["form"] in "dv" else "1")) for it in listed]
         if kind == "choose":
             pk = pick(t, items)
             if pk is None:
@@ -614,6 +655,17 @@ def gen_program(rng, literal_share=0.05):
         if s["k"] in ("choose", "shuffle") and not s["items"]:
             s["form"] = "d"  # `do choose` with no operand is not syntax; the empty dict is
     prog = {"ctx": ctx, "t0": rng.choice([0, 0, 1, 2, 3]), "stmts": stmts}
+    if ctx == "behavior" and rng.random() < 0.22:
+        # the operand is a dict held in a local variable, used by two or three statements (behavior objects may be
+        # started again once they have ended; scenario objects are single-use, so compose bodies do not get this form)
+        d = []
+        while not d:
+            d = gen_items(rng, next_id, 3)
+        uses = [{"k": rng.choice(["choose", "shuffle", "shuffle"]), "form": "v", "var": 0}
+                for _ in range(rng.choice([2, 2, 3]))]
+        keep = [s for s in stmts if s["k"] not in ("choose", "shuffle")][:1]
+        stmts = uses[:1] + keep + uses[1:] if rng.random() < 0.5 else uses + keep
+        prog = dict(prog, stmts=stmts, dicts=[d])
     if rng.random() < literal_share:
         prog["literal"] = True  # rendered as its own source text (dict/tuple literals) instead of the table-driven source
     return prog
@@ -621,8 +673,37 @@ def gen_program(rng, literal_share=0.05):
 
 def nontrivial(prog):
     nd = sum(1 for s in prog["stmts"] if s["k"] in ("range", "options", "uniform"))
-    big = any(s["k"] in ("choose", "shuffle") and len(s["items"]) >= 2 for s in prog["stmts"])
+    big = any(s["k"] in ("choose", "shuffle") and len(items_of(prog, s)) >= 2 for s in prog["stmts"])
     return big or nd >= 2
+
+
+def items_of(prog, s):
+    return prog["dicts"][s["var"]] if s.get("form") == "v" else s["items"]
+
+
+def reused_after_shuffle(prog):
+    """a dict variable is used again after a `do shuffle` on it"""
+    seen = set()
+    for s in prog["stmts"]:
+        if s.get("form") == "v":
+            if s["var"] in seen:
+                return True
+            if s["k"] == "shuffle":
+                seen.add(s["var"])
+    return False
+
+
+def literalised(prog):
+    """the same program with every variable operand written out as a dict literal"""
+    stmts = [dict(k=s["k"], form="d", items=[dict(it) for it in prog["dicts"][s["var"]]]) if s.get("form") == "v" else s
+             for s in prog["stmts"]]
+    return {k: v for k, v in dict(prog, stmts=stmts).items() if k != "dicts"}
+
+
+def violation_key(prog):
+    if reused_after_shuffle(prog):
+        return "pmf:dict-operand-reused-after-shuffle"
+    return f"pmf:{kinds_of(prog)}"
 
 
 CORPUS = [
@@ -652,6 +733,11 @@ CORPUS = [
     {"ctx": "monitor", "t0": 2, "stmts": [
         {"k": "range", "lo": ["c", 1], "hi": ["c", 3]}, {"k": "range", "lo": ["c", 1], "hi": ["c", 3]},
         {"k": "range", "lo": ["c", 0], "hi": ["p", 0]}, {"k": "options", "opts": [[7, "1"], [8, "3"], [9, "0"]]}]},
+    # a dict held in a variable is chosen from twice, then shuffled, then chosen from again
+    {"ctx": "behavior", "t0": 0, "dicts": [[{"id": 1, "w": "1", "pre": [1], "dur": [1]},
+                                            {"id": 2, "w": "3", "pre": [1], "dur": [0, 2]}]],
+     "stmts": [{"k": "choose", "form": "v", "var": 0}, {"k": "choose", "form": "v", "var": 0},
+               {"k": "shuffle", "form": "v", "var": 0}, {"k": "choose", "form": "v", "var": 0}]},
     # four items, tuple form, everything enabled: 24 orders, each 1/24
     {"ctx": "behavior", "t0": 0, "stmts": [
         {"k": "shuffle", "form": "t", "items": [{"id": i, "w": "1", "pre": [1], "dur": [1]} for i in (1, 2, 3, 4)]}]},
@@ -693,10 +779,16 @@ def shrink(prog, still_fails, budget=40):
                     if cur["stmts"][i]["k"] in ("range", "options", "uniform"):  # keep the time step, drop the draw
                         cands.append(dict(cur, stmts=cur["stmts"][:i] + [{"k": "wait", "n": 1}] + cur["stmts"][i + 1:]))
             s = cur["stmts"][i]
-            if s["k"] in ("choose", "shuffle") and len(s["items"]) > 1:
+            if s["k"] in ("choose", "shuffle") and s.get("form") != "v" and len(s["items"]) > 1:
                 for j in range(len(s["items"])):
                     s2 = dict(s, items=s["items"][:j] + s["items"][j + 1:])
                     cands.append(dict(cur, stmts=cur["stmts"][:i] + [s2] + cur["stmts"][i + 1:]))
+        if cur.get("dicts"):
+            cands.insert(0, literalised(cur))  # does the failure need the shared operand at all?
+            for v, d in enumerate(cur["dicts"]):
+                for j in range(len(d)):
+                    if len(d) > 1:
+                        cands.append(dict(cur, dicts=cur["dicts"][:v] + [d[:j] + d[j + 1:]] + cur["dicts"][v + 1:]))
         if cur["t0"]:
             cands.append(dict(cur, t0=0))
         for c in cands:
@@ -729,7 +821,7 @@ def check_program(ctx, prog, lean_out, state):
     ctx.hist("rng_paths", 1 if npaths == 1 else 2 if npaths == 2 else "3-6" if npaths <= 6 else "7-24" if npaths <= 24 else "25+")
     for s in prog["stmts"]:
         if s["k"] in ("choose", "shuffle"):
-            ctx.hist("schedule", f"{s['k']}:{s['form']}:{len(s['items'])} items")
+            ctx.hist("schedule", f"{s['k']}:{s['form']}:{len(items_of(prog, s))} items")
         else:
             ctx.hist("statement", s["k"])
     for k, p in real.items():
@@ -737,9 +829,6 @@ def check_program(ctx, prog, lean_out, state):
     if sum(real.values()) != 1:
         raise Infra("enumerated probabilities do not sum to 1")
     found = False
-    if any(k[0] == "bad" for k in real):
-        k = next(k for k in real if k[0] == "bad")
-        raise Infra(f"generated program did not terminate as designed: {k}")
     # (C) model vs code
     if lean_out is not None:
         model = parse_lean(lean_out)
@@ -758,13 +847,21 @@ def check_program(ctx, prog, lean_out, state):
             def fails(p):
                 r, _, _ = real_pmf(p)
                 return diff_pmf(r, spec_pmf(p)) is not None
+            if reused_after_shuffle(prog) and "pmf:dict-operand-reused-after-shuffle" in state["known_seen"] \
+                    and not fails(literalised(prog)):
+                # the recorded defect again (the failure disappears when the operand is written out): no need to shrink
+                ctx.violation("pmf:dict-operand-reused-after-shuffle", "", {})
+                return found
             small = shrink(prog, fails)
             r2, _, errs2 = real_pmf(small)
             d2 = diff_pmf(r2, spec_pmf(small)) or d
             what = (f"{small['ctx']} body [{lean_line(small)}]: real interpreter vs stated probabilities: {d2}"
                     + (f" (exceptions: {sorted(errs2)})" if errs2 else ""))
-            if ctx.violation(f"pmf:{kinds_of(small)}", what, {"kind": "program", "program": small}):
+            key = violation_key(small)
+            if ctx.violation(key, what, {"kind": "program", "program": small}):
                 found = True
+            else:
+                state["known_seen"].add(key)
     except Undecided:
         ctx.hist("oracle", "undecided (0/0 or negative weight)")
         state["undecided"] += 1
@@ -886,7 +983,7 @@ def run(ctx):
                          "these functions and the tie rests on the correspondence run at thorough budget")
     pr = ctx.prove(THEOREMS, side_conditions=SIDE)
     if ctx.tier == "thorough" and pr.build_ok:
-        ctx.leanchecker(["ScenicModel.Props.C19"])
+        ctx.leanchecker(["ScenicModel.Props.C19", "ScenicModel.Props.C19Step"])
     driver_ok = pr.build_ok
     if not driver_ok:
         # the generated constants may have made a side condition fail while the driver itself still builds
@@ -898,7 +995,7 @@ def run(ctx):
     progs = []
     nprog = ctx.budget(320, 3000)
     for i, c in enumerate(CORPUS):
-        progs.append(dict(c, literal=True) if i < ctx.budget(2, 6) else c)
+        progs.append(dict(c, literal=True) if i < ctx.budget(2, 7) else c)
     for _ in range(nprog):
         progs.append(gen_program(rng, ctx.budget(0.03, 0.05)))
     lean_outs = [None] * len(progs)
@@ -908,7 +1005,7 @@ def run(ctx):
         except Infra:
             if pr.build_ok:
                 raise
-    state = {"corr_bad": 0, "undecided": 0}
+    state = {"corr_bad": 0, "undecided": 0, "known_seen": set()}
     found = False
     import time
     t_explore = time.time()  # the exploration budget does not include a Lean rebuild after a change of Gen/
